@@ -5,6 +5,8 @@ answers of the step's query calls.  Integers / lists / bools / short strings onl
 
 Case (JSON):  {"specs": [...], "objects": [...]            as harness/drivers/reg_common.World
                "unhashable": [component identities whose class has __hash__ = None],
+               "falsy": [component identities that are falsy: __bool__ False (hashable ones) or
+                         __len__ 0 (unhashable ones); invisible to the model],
                "steps": [{"op": [...], "queries": [[...], ...]}, ...]}
 Components / factories are [vid, veq] pairs (identity, equality class).  Names and infos are
 numbers (0 -> '', k -> 'n<k>' / 'i<k>').  ``style`` selects how the arguments are passed:
@@ -61,7 +63,19 @@ def make_classes():
     class UComp(Comp):
         __hash__ = None
 
-    return Comp, UComp
+    class FComp(Comp):
+        """falsy, hashable"""
+
+        def __bool__(self):
+            return False
+
+    class UFComp(UComp):
+        """falsy the way an empty container is, unhashable"""
+
+        def __len__(self):
+            return 0
+
+    return Comp, UComp, FComp, UFComp
 
 
 class UFactory:
@@ -86,7 +100,8 @@ def info_id(s):
 class Env:
     def __init__(self, case):
         self.world = R.World(case)
-        self.Comp, self.UComp = make_classes()
+        self.Comp, self.UComp, self.FComp, self.UFComp = make_classes()
+        self.falsy = set(case.get("falsy", []))
         self.unh = set(case.get("unhashable", []))
         self.comps = {}
         self.facs = {}
@@ -100,7 +115,10 @@ class Env:
             return None
         key = (v[0], v[1])
         if key not in self.comps:
-            cls = self.UComp if v[0] in self.unh else self.Comp
+            if v[0] in self.falsy:
+                cls = self.UFComp if v[0] in self.unh else self.FComp
+            else:
+                cls = self.UComp if v[0] in self.unh else self.Comp
             self.comps[key] = cls(v[0], v[1], self)
         return self.comps[key]
 
